@@ -78,6 +78,9 @@ pub enum NetOp {
         #[serde(default)]
         soft: bool,
     },
+    /// the network delivers one more copy of a datagram it has already delivered some time ago
+    /// (a duplicate that was delayed for long, still within the age bound); `pick` as for Deliver
+    Redeliver { dir: u8, pick: i32 },
     /// C04 only: a datagram that DOES carry the token the endpoint expects (on-path forger,
     /// reflected or mangled traffic): feeding it is a valid call, so it must not panic and
     /// whatever the endpoint sends in response must be well-formed
@@ -148,6 +151,8 @@ pub struct World<'a> {
     pub cfg: &'a NetCfg,
     pub s: [Side; 2],
     pub wire: [Vec<Dgram>; 2],
+    /// datagrams already delivered (bounded window: the first 12 and the latest 48 per direction)
+    pub delivered_log: [Vec<Dgram>; 2],
     pub stale: [Vec<Vec<u8>>; 2],
     pub in_suffix: bool,
     pub injecting: bool,
@@ -240,6 +245,7 @@ impl<'a> World<'a> {
             cfg,
             s: [mk(0), mk(1)],
             wire: [Vec::new(), Vec::new()],
+            delivered_log: [Vec::new(), Vec::new()],
             stale: [Vec::new(), Vec::new()],
             in_suffix: false,
             injecting: false,
@@ -459,7 +465,8 @@ impl<'a> World<'a> {
         if n == 0 {
             return None;
         }
-        let mut k = n - ((n + 1024 - seq as usize) % 1024);
+        // a sequence number that no submission can carry (more than n behind) has no model entry
+        let mut k = n.checked_sub((n + 1024 - seq as usize % 1024) % 1024)?;
         if k == 0 {
             if n >= 1024 {
                 k = 1024;
@@ -658,7 +665,7 @@ impl Engine for NetEngine {
     fn info(&self) -> EngineInfo {
         let common_faults = vec![
             "fault_loss", "fault_loss_aged", "fault_duplication", "fault_reorder", "fault_send_failure",
-            "fault_clock_skew", "fault_clock_jump", "fault_weak_rng", "fault_foreign_datagram", "fault_forged_datagram",
+            "fault_clock_skew", "fault_clock_jump", "fault_weak_rng", "fault_foreign_datagram", "fault_forged_datagram", "fault_late_duplicate",
         ];
         let (rule, probes): (&str, Vec<&'static str>) = match self.prop {
             NetProp::C01 => (
